@@ -30,6 +30,7 @@ Print Assumptions C02_header_by_hash.
    number exceeds 2^64 is only excluded by the proof check, C03) *)
 Theorem C02_header_by_number : forall L src kh content,
   vc L repaired src (x03 :: kh) content = Ok tt ->
+  length kh = 8%nat /\
   exists hb proof h n, l_dec_hwp L content = Some (hb, proof) /\ l_dec_header L hb = Some h /\
                        key_number kh = Some n /\ h_number h mod two64 = n /\ l_proof_check L h proof = Ok tt.
 Proof. exact header_by_number_sound. Qed.
@@ -75,6 +76,14 @@ Theorem C02_never_panics : forall L src key content,
   (forall h p, l_proof_check L h p <> Panic) -> vc L repaired src key content <> Panic.
 Proof. intros. apply no_panic; auto. Qed.
 Print Assumptions C02_never_panics.
+
+(* the key itself: an accepted key is exactly selector ++ 32 bytes (0x00, 0x01, 0x02) or selector ++ 8 bytes (0x03);
+   over-long, truncated and left/right-extended keys are rejected (hash values are 32 bytes long) *)
+Theorem C02_key_length : forall L src key content,
+  (forall h, length (l_hdr_hash L h) = 32%nat) ->
+  vc L repaired src key content = Ok tt -> key_exact key.
+Proof. exact key_length. Qed.
+Print Assumptions C02_key_length.
 
 (* ephemeral and unknown selectors are not validated: always an error *)
 Theorem C02_other_selectors_rejected : forall L src s kh content,
@@ -127,19 +136,19 @@ Print Assumptions C02_oracle_bound.
 
 (* (i) no comparison of the obtained header's hash with the key: a lying source gets a foreign body / receipt list accepted *)
 Theorem C02_lying_source_body_refuted :
-  exists src key content, vc wl (mkVariant false true true true) src key content = Ok tt /\ ~ genuine wl key content.
+  exists src key content, vc wl (mkVariant false true true true true) src key content = Ok tt /\ ~ genuine wl key content.
 Proof. exact lying_source_body_refuted. Qed.
 Print Assumptions C02_lying_source_body_refuted.
 
 Theorem C02_lying_source_receipts_refuted :
-  exists src key content, vc wl (mkVariant false true true true) src key content = Ok tt /\ ~ genuine wl key content.
+  exists src key content, vc wl (mkVariant false true true true true) src key content = Ok tt /\ ~ genuine wl key content.
 Proof. exact lying_source_receipts_refuted. Qed.
 Print Assumptions C02_lying_source_receipts_refuted.
 
 (* (ii) legacy body accepted for a header with a withdrawals root (honest source) *)
 Theorem C02_legacy_body_refuted :
   exists src key content h b,
-    vc wl (mkVariant true false true true) src key content = Ok tt /\
+    vc wl (mkVariant true false true true true) src key content = Ok tt /\
     src (tl key) = Some h /\ l_hdr_hash wl h = tl key /\ l_dec_body wl content = Some b /\
     l_wd_root wl b = None /\ h_wd h <> None /\ ~ body_matches wl b h.
 Proof. exact legacy_body_refuted. Qed.
@@ -149,17 +158,24 @@ Print Assumptions C02_legacy_body_refuted.
 Theorem C02_nil_withdrawals_hash_refuted :
   exists src key content h,
     src (tl key) = Some h /\ l_hdr_hash wl h = tl key /\
-    vc wl (mkVariant true false true true) src key content = Panic.
+    vc wl (mkVariant true false true true true) src key content = Panic.
 Proof. exact nil_withdrawals_hash_refuted. Qed.
 Print Assumptions C02_nil_withdrawals_hash_refuted.
 
 (* contentKey[0] on an empty key (repaired by the coordinator's commit "return an error for an empty content key") *)
-Theorem C02_empty_key_refuted : exists src content, vc wl (mkVariant true true false true) src [] content = Panic.
+Theorem C02_empty_key_refuted : exists src content, vc wl (mkVariant true true false true true) src [] content = Panic.
 Proof. exact empty_key_refuted. Qed.
 Print Assumptions C02_empty_key_refuted.
 
+(* 0x03 keys: bytes after the 8-byte number were ignored (fixes/C02-number-key-exact-length.diff) *)
+Theorem C02_number_key_trailing_refuted :
+  exists src key content,
+    vc wl (mkVariant true true true true false) src key content = Ok tt /\ ~ key_exact key.
+Proof. exact number_key_trailing_refuted. Qed.
+Print Assumptions C02_number_key_trailing_refuted.
+
 Theorem C02_oracle_refuted :
-  exists serve hash h, oracle wl (mkVariant true true true false) serve hash = Some h /\ l_hdr_hash wl h <> hash.
+  exists serve hash h, oracle wl (mkVariant true true true false true) serve hash = Some h /\ l_hdr_hash wl h <> hash.
 Proof. exact oracle_refuted. Qed.
 Print Assumptions C02_oracle_refuted.
 
